@@ -8,6 +8,12 @@ pub type Id = u32;
 #[derive(Clone, Debug, PartialEq, Eq)]
 pub enum Op {
     New { o: Id, h: Id },
+    /// Two-phase construction: `Rc::new_uninit`, the value written in place; the handle
+    /// keeps the type `Rc<MaybeUninit<Node>>` (and so do its clones) until `AssumeInit`
+    /// or until a call needs an `Rc<Node>`; adoptions between two such handles are made
+    /// through the `MaybeUninit`-typed API.
+    NewU { o: Id, h: Id },
+    AssumeInit { h: Id },
     Clone { h: Id, d: Id },
     Drop { h: Id },
     /// Move program handle `h` into the value of the object `owner` points to;
@@ -24,6 +30,10 @@ pub enum Op {
     Upgrade { w: Id, d: Id },
     WeakClone { w: Id, d: Id },
     WeakDrop { w: Id },
+    /// `Weak::into_raw` immediately followed by `Weak::from_raw` on program Weak `w`
+    /// (also after the object died); `as_ptr` is compared with the value address while
+    /// the object is alive.
+    WeakRaw { w: Id },
     StoreWeak { w: Id, owner: Id },
     TryUnwrap { h: Id, v: Id },
     MakeMut { h: Id, o2: Id },
@@ -50,6 +60,8 @@ impl Op {
     pub fn name(&self) -> &'static str {
         match self {
             Op::New { .. } => "New",
+            Op::NewU { .. } => "NewU",
+            Op::AssumeInit { .. } => "AssumeInit",
             Op::Clone { .. } => "Clone",
             Op::Drop { .. } => "Drop",
             Op::Store { .. } => "Store",
@@ -62,6 +74,7 @@ impl Op {
             Op::Upgrade { .. } => "Upgrade",
             Op::WeakClone { .. } => "WeakClone",
             Op::WeakDrop { .. } => "WeakDrop",
+            Op::WeakRaw { .. } => "WeakRaw",
             Op::StoreWeak { .. } => "StoreWeak",
             Op::TryUnwrap { .. } => "TryUnwrap",
             Op::MakeMut { .. } => "MakeMut",
@@ -82,6 +95,8 @@ impl Op {
     pub fn args(&self) -> Vec<Id> {
         match *self {
             Op::New { o, h } => vec![o, h],
+            Op::NewU { o, h } => vec![o, h],
+            Op::AssumeInit { h } => vec![h],
             Op::Clone { h, d } => vec![h, d],
             Op::Drop { h } => vec![h],
             Op::Store { h, owner, adopt } => vec![h, owner, adopt as Id],
@@ -94,6 +109,7 @@ impl Op {
             Op::Upgrade { w, d } => vec![w, d],
             Op::WeakClone { w, d } => vec![w, d],
             Op::WeakDrop { w } => vec![w],
+            Op::WeakRaw { w } => vec![w],
             Op::StoreWeak { w, owner } => vec![w, owner],
             Op::TryUnwrap { h, v } => vec![h, v],
             Op::MakeMut { h, o2 } => vec![h, o2],
@@ -127,6 +143,8 @@ impl Op {
         let need = |n: usize| if a.len() == n { Ok(()) } else { Err(format!("{t}: expected {n} arguments")) };
         Ok(match name {
             "New" => { need(2)?; Op::New { o: a[0], h: a[1] } }
+            "NewU" => { need(2)?; Op::NewU { o: a[0], h: a[1] } }
+            "AssumeInit" => { need(1)?; Op::AssumeInit { h: a[0] } }
             "Clone" => { need(2)?; Op::Clone { h: a[0], d: a[1] } }
             "Drop" => { need(1)?; Op::Drop { h: a[0] } }
             "Store" => { need(3)?; Op::Store { h: a[0], owner: a[1], adopt: a[2] != 0 } }
@@ -139,6 +157,7 @@ impl Op {
             "Upgrade" => { need(2)?; Op::Upgrade { w: a[0], d: a[1] } }
             "WeakClone" => { need(2)?; Op::WeakClone { w: a[0], d: a[1] } }
             "WeakDrop" => { need(1)?; Op::WeakDrop { w: a[0] } }
+            "WeakRaw" => { need(1)?; Op::WeakRaw { w: a[0] } }
             "StoreWeak" => { need(2)?; Op::StoreWeak { w: a[0], owner: a[1] } }
             "TryUnwrap" => { need(2)?; Op::TryUnwrap { h: a[0], v: a[1] } }
             "MakeMut" => { need(2)?; Op::MakeMut { h: a[0], o2: a[1] } }
